@@ -192,6 +192,7 @@ Definition has_value_attr (e : expr) : bool :=
   | EConst _ => true
   | _ => false
   end.
+Definition is_juxt (e : expr) : bool := match e with EJuxt _ _ => true | _ => false end.
 (** [_invert_comparisons]: [None] = the repaired default branch declines *)
 Fixpoint invert_targets (cfg : invert_cfg) (rest : list (cmpop * expr)) : option (list (cmpop * expr)) :=
   match rest with
@@ -200,7 +201,8 @@ Fixpoint invert_targets (cfg : invert_cfg) (rest : list (cmpop * expr)) : option
       match invert_targets cfg t with
       | None => None
       | Some t' =>
-          match assoc_op o (iv_table cfg) with
+          (* a target garbled by an earlier inversion has a ComparisonTarget in its operator slot: no case matches it *)
+          match (if is_juxt c then None else assoc_op o (iv_table cfg)) with
           | Some o' => Some ((o', c) :: t')
           | None => match iv_default cfg with
                     | KeepTarget => Some ((o, match c with EJuxt n c0 => EJuxt (N.succ n) c0 | _ => EJuxt 0 c end) :: t')
@@ -223,7 +225,8 @@ Definition invert_node (cfg : invert_cfg) (p : bool) (a : expr) : option expr :=
   | ECmp pc l rest =>
       match rest with
       | [(Is, c)] =>
-          if has_value_attr c then
+          if is_juxt c then Some (invert_general cfg p a pc l rest)        (* the operator slot no longer holds a cst.Is *)
+          else if has_value_attr c then
             match c with
             | EConst (CBool true) => Some (ENot (iv_parens cfg && p) l)    (* not x is True  ->  not x *)
             | EConst (CBool false) => Some l                               (* not x is False ->  x *)
